@@ -38,7 +38,10 @@ FNS = [("return x - y", lambda x, y: x - y), ("return 3 - (x + y)", lambda x, y:
        # fractional values (dyadic: exact): negative values between -1 and 0 are negative
        ("return (x - y) / 4 - 0.125", lambda x, y: (x - y) / 4 - 0.125), ("return 0.25 * x - 0.75", lambda x, y: 0.25 * x - 0.75),
        ("return (x * y - 3) / 8", lambda x, y: (x * y - 3) / 8), ("return ((x - 2)**2 + (y - 1)**2) ** 0.5 - 2.5", lambda x, y: ((x - 2) ** 2 + (y - 1) ** 2) ** 0.5 - 2.5),
-       ("return -0.5 + 0 * x", lambda x, y: -0.5), ("return 0.5 + 0 * x", lambda x, y: 0.5)]
+       ("return -0.5 + 0 * x", lambda x, y: -0.5), ("return 0.5 + 0 * x", lambda x, y: 0.5),
+       # functions that vanish ON the boundary as IEEE -0.0 (a distance with a minus sign): zero is not negative, whatever its sign bit
+       ("return -abs(x - 2.0)", lambda x, y: -abs(x - 2.0)), ("return -1.0 * abs(x - y)", lambda x, y: -1.0 * abs(x - y)),
+       ("return -((x - 1.0)**2 + (y - 2.0)**2) * (x + 1.0)", lambda x, y: -((x - 1.0) ** 2 + (y - 2.0) ** 2) * (x + 1.0))]
 
 
 def box_part(ctx, count):
